@@ -2,6 +2,7 @@ package main
 
 import (
 	"fmt"
+	"strings"
 
 	d "github.com/ostafen/clover/v2/document"
 	"github.com/ostafen/clover/v2/query"
@@ -51,6 +52,7 @@ func streamC16(c *Ctx) {
 		batchDocs, batchCrits, batchLines = nil, nil, nil
 		return ok
 	}
+	modelOff := false
 	for i := 0; i < n; i++ {
 		g := NewGen(c.Rng, dm)
 		h := NewHistGen(g, 1, depth)
@@ -86,11 +88,24 @@ func streamC16(c *Ctx) {
 		c.Count("shape:" + critShape(cj)[:min(len(critShape(cj)), 3)])
 		c.Count("sat:" + b01(r))
 		c.NonTrivial(fmt.Sprint(cj) + canonDoc(docM))
-		m := dr.Ask(line)
-		if m != b01(r) {
-			// is a law of the property itself violated? check the laws below first, then report
-			c.Unexplained(&Replay{Stream: "sat", Case: []interface{}{line}, Expected: []string{m}, Actual: []string{b01(r)}}, "correspondence K-C16/sat")
-			return
+		// a field reference may be spelled Field("f") or "$f", in any operand position (single operands and the lists of In /
+		// Contains): the criterion with every "$f" replaced by Field("f") answers the same (no model involved)
+		if tw, changed := refTwin(cj); changed {
+			rt, panT := safeSatisfy(decCrit(tw.(J)), doc)
+			c.Count("dollar-reference-twin")
+			if panT != "" || rt != r {
+				c.Violation(&Replay{Stream: "sat", Case: []interface{}{line, J{"k": "sat", "crit": tw, "doc": encDoc(docM)}}, Expected: []string{b01(r)}, Actual: []string{b01(rt), panT},
+					Note: "a \"$f\" operand and the Field(\"f\") operand it stands for give different answers"})
+				return
+			}
+		}
+		if !modelOff {
+			m := dr.Ask(line)
+			if m != b01(r) {
+				// recorded once; the laws of the property itself go on being checked on the implementation
+				c.Unexplained(&Replay{Stream: "sat", Case: []interface{}{line}, Expected: []string{m}, Actual: []string{b01(r)}}, "correspondence K-C16/sat")
+				modelOff = true
+			}
 		}
 		// Boolean laws on the implementation
 		cj2 := h.Crit(g.pick(3))
@@ -268,6 +283,21 @@ func c16ListLaws(c *Ctx, dr *Driver, h *HistGen, g *Gen, docM map[string]interfa
 				Note: "In(e1..en) must hold iff the field compares equal to some ei (In(e1) Or ... Or In(en))"})
 			return false
 		}
+		// the "$f" elements of the lists replaced by Field("f"): the same answers
+		for _, pr := range []struct {
+			line J
+			got  bool
+		}{{lineC, gotC}, {lineI, gotI}} {
+			if tw, changed := refTwin(pr.line["crit"]); changed {
+				rt, panT := safeSatisfy(decCrit(tw.(J)), doc)
+				c.Count("dollar-reference-twin")
+				if panT != "" || rt != pr.got {
+					c.Violation(&Replay{Stream: "sat", Case: []interface{}{pr.line, J{"k": "sat", "crit": tw, "doc": encDoc(docM)}}, Expected: []string{b01(pr.got)}, Actual: []string{b01(rt), panT},
+						Note: "a \"$f\" element of an In / Contains list and the Field(\"f\") it stands for give different answers"})
+					return false
+				}
+			}
+		}
 		if m := dr.Ask(lineC); m != b01(gotC) {
 			c.Unexplained(&Replay{Stream: "sat", Case: []interface{}{lineC}, Expected: []string{m}, Actual: []string{b01(gotC)}}, "correspondence K-C16/sat")
 			return false
@@ -363,4 +393,43 @@ func min(a, b int) int {
 		return a
 	}
 	return b
+}
+
+// refTwin: the criterion (JSON form) with every string operand "$name" replaced by the field reference it stands for
+// (strings.TrimLeft(s, "$"), as getFieldOrValue reads it); Like patterns are not operands. changed=false when there is none.
+func refTwin(j interface{}) (interface{}, bool) {
+	switch v := j.(type) {
+	case map[string]interface{}: // J is an alias of this type
+		if lit, ok := v["lit"]; ok && len(v) == 1 {
+			if lm, ok := lit.(map[string]interface{}); ok {
+				if sx, ok := lm["s"].(string); ok && strings.HasPrefix(sx, "24") {
+					name := strings.TrimLeft(unhx(sx), "$")
+					return J{"ref": hx(name)}, true
+				}
+			}
+			return J(v), false
+		}
+		out := J{}
+		changed := false
+		for k, e := range v {
+			if k == "like" {
+				out[k] = e
+				continue
+			}
+			ne, ch := refTwin(e)
+			out[k] = ne
+			changed = changed || ch
+		}
+		return out, changed
+	case []interface{}:
+		out := make([]interface{}, len(v))
+		changed := false
+		for i, e := range v {
+			ne, ch := refTwin(e)
+			out[i] = ne
+			changed = changed || ch
+		}
+		return out, changed
+	}
+	return j, false
 }
